@@ -123,7 +123,7 @@ def class_pool(fmt):
     return [x for v in pos for x in (v, v | sign)]
 
 
-def grid_items(rng, npool, nbin, rot, tier="quick"):
+def grid_items(rng, npool, nbin, rot, tier="quick", classes=True):
     from wasm_encode import OPS
     items = []
     P = {"f32": fpool("f32", rng, npool), "f64": fpool("f64", rng, npool), "i32": ipool(32, rng, npool), "i64": ipool(64, rng, npool)}
@@ -147,7 +147,7 @@ def grid_items(rng, npool, nbin, rot, tier="quick"):
             add(o, [t], [it_ if exact else t], [["local.get", 0], ["%s.%s" % (t, o)]] + ([["%s.reinterpret_%s" % (it_, t)]] if exact else []))
             calls += [{"op": "call", "inst": 1, "export": o, "args": [val(t, a)]} for a in P[t]]
         big = FBIN if rot is None else [o for j, o in enumerate(FBIN) if o == "copysign" or (j + rot) % 2 == 0]
-        CL = class_pool(t)
+        CL = class_pool(t) if classes else class_pool(t)[::4]
         for o in FBIN:
             exact = o == "copysign"
             add(o, [t, t], [it_ if exact else t], [["local.get", 0], ["local.get", 1], ["%s.%s" % (t, o)]] + ([["%s.reinterpret_%s" % (it_, t)]] if exact else []))
